@@ -66,6 +66,9 @@ class World(object):
         self.env.add_dynamic_walker_function(World._CUSTOM2[0], SimpleTypeChecker, SimpleTypeChecker.walk_bool_to_bool)
         self.custom_f = m.And(m.Or(q, le), m.Not(m.And(p, m.create_node(node_type=World._CUSTOM2[0], args=(m.Or(p, q),)))),
                               m.Equals(m.Function(f, [x]), y))
+        # a long-lived map that is rejected INSIDE the body of a quantifier binding one of its keys (y -> a Real), and
+        # is perfectly fine for formulas without y
+        self.bad_map_quant = {x: m.Int(0), y: r}
         # a long-lived substitution map whose CONTENT is changed between two uses (same object, same address)
         self.shared_map = {y: m.Plus(x, m.Int(1))}
         self.known = set(m.symbols)
@@ -208,6 +211,7 @@ class World(object):
             ("hr parse error", lambda: self._call(lambda: self.hr.parse("(x + ) <= y"))),
             ("subst map with a foreign value", lambda: self._call(lambda: self.phi1.substitute(self.bad_map_foreign))),
             ("subst map with a function symbol as value", lambda: self._call(lambda: self.phi2.substitute(self.bad_map_funsym))),
+            ("subst phi3 with a map rejected under the binder of one of its keys", lambda: self._call(lambda: self.phi3.substitute(self.bad_map_quant))),
             # an operator without handler met in the middle of a traversal (size with two measures, simplify, free
             # variables, substitution, SMT-LIB printing)
             ("size(custom formula, depth)", lambda: self._call(lambda: self.env.sizeo.get_size(self.custom_f, measure=3), "text")),
@@ -258,6 +262,8 @@ class World(object):
             # earlier rejected one may have left in the substituter)
             ("subst {q:p} phi1", lambda: self._call(lambda: self.phi1.substitute({q: p})), True),
             ("subst shared_map after its content changed, phi3", lambda: self._call(lambda: self._subst_changed_map()), False),
+            ("subst x<=3 & p with the map rejected under a binder", lambda: self._call(
+                lambda: m.And(m.LE(x, m.Int(3)), p).substitute(self.bad_map_quant)), False),
             ("custom node after registering its type-checker rule", lambda: self._call(lambda: self._custom_with_rule(), "text"), False),
             ("subst {x:0} phi1", lambda: self._call(lambda: self.phi1.substitute({x: m.Int(0)})), True),
             ("subst {y:x+1,p:q} phi4", lambda: self._call(lambda: self.phi4.substitute({y: m.Plus(x, m.Int(1)), p: q})), True),
